@@ -323,6 +323,9 @@ func concKey(k Value) (string, bool) {
 // mapFind locates the entry for key k (forking when symbolic keys may or may not be equal).
 // Returns the entry or nil.
 func (e *Exec) mapFind(m *Map, k Value) *MapEntry {
+	if e.tracing {
+		e.traceMap("R", m)
+	}
 	if ck, ok := concKey(k); ok {
 		if i, ok := m.idx[ck]; ok {
 			en := m.Entries[i]
@@ -404,6 +407,9 @@ func (e *Exec) mapUpdate(mr MapRef, k, v Value) {
 		e.rtPanic("assignment to entry in nil map")
 	}
 	e.effectOn(mr.M.ID)
+	if e.tracing {
+		e.traceMap("W", mr.M)
+	}
 	e.noteMapWrite(mr.M)
 	e.subGuard("map write")
 	if mr.M.Frozen && !e.initMode {
@@ -427,6 +433,9 @@ func (e *Exec) mapDelete(mr MapRef, k Value) {
 	e.noteMapWrite(mr.M)
 	e.subGuard("map delete")
 	e.effectOn(mr.M.ID)
+	if e.tracing {
+		e.traceMap("W", mr.M)
+	}
 	// deleting a concrete key never needs to know whether a guarded entry is present
 	if ck, ok := concKey(k); ok {
 		if i, ok := mr.M.idx[ck]; ok && !mr.M.Entries[i].Deleted {
@@ -545,6 +554,9 @@ func (e *Exec) rangeIter(x Value, t types.Type) Value {
 	switch v := x.(type) {
 	case MapRef:
 		it := &mapIter{m: v.M}
+		if v.M != nil && e.tracing {
+			e.traceMap("R", v.M)
+		}
 		if v.M != nil {
 			for _, en := range v.M.Entries {
 				if !en.Deleted {
